@@ -1,7 +1,8 @@
 // Harness module for geom/src/io.rs (child of `retrofire_geom::io`, cfg(kani) only).
 // @module io::verif_kani
 //
-// parse_obj as a whole is out of CBMC's reach (DESIGN.md C14): the claim is the index arithmetic.
+// parse_obj over symbolic text is out of CBMC's reach (DESIGN.md C14): the claim is the index arithmetic, complete for short
+// strings, plus parse_obj itself on a few concrete texts (bounded stand-ins).
 #![allow(unused_imports)]
 use super::*;
 
@@ -102,6 +103,79 @@ fn io_parse_indices_forms() {
 }
 
 // Tried and dropped: parse_obj on the inputs "f a b c" (three symbolic digits, no vertex line) -- 21 min and 6.7 GB without
-// a verdict; the whole-parser obligations stay out of reach (DESIGN.md C14).
+// a verdict; whole-parser obligations over SYMBOLIC text stay out of reach (DESIGN.md C14).  On CONCRETE text every control
+// decision of the parser is constant, and CBMC decides parse_obj in 15 s to 5 min: the obligations below are bounded stand-ins
+// on single concrete inputs (kind B, never counted as proved), chosen to exercise the deferred bounds check, the index forms,
+// the layout clauses and the faithful reproduction of the face list.
+
+// @ob props=C14 tier=quick kind=B cfg=geom-std timeout=2400
+// @fn parse_obj ; parse_face ; parse_indices ; Mesh::new
+// @bound one concrete input: the single line "f 1 2 3" (a face, no vertex line at all)
+// @clause faces with no vertices defined: parse_obj does not panic (the deferred bounds check must not be skipped when the vertex list is empty, or Mesh::new's index assertion fires) and returns an error
+#[cfg(not(verif_skip_io_parse_obj_face_without_vertices))]
+#[kani::proof]
+#[kani::unwind(12)]
+fn io_parse_obj_face_without_vertices() {
+    let r = parse_obj(*b"f 1 2 3\n");
+    kani::cover!(true);
+    assert!(r.is_err());
+}
+
+fn face_is(m: &Mesh<()>, k: usize, f: [usize; 3]) -> bool {
+    m.faces[k].0[0] == f[0] && m.faces[k].0[1] == f[1] && m.faces[k].0[2] == f[2]
+}
+fn vert_is(m: &Mesh<()>, k: usize, p: [f32; 3]) -> bool {
+    let q = &m.verts[k].pos;
+    q.x() == p[0] && q.y() == p[1] && q.z() == p[2]
+}
+
+// @ob props=C14 tier=quick kind=B cfg=geom-std timeout=2400
+// @fn parse_obj ; parse_face ; parse_indices ; parse_index ; Mesh::new ; Builder::build
+// @bound one concrete 9-line text: a comment, a blank line, an indented line, faces before and after the vertices they use, the four index forms v, v/vt, v//vn, v/vt/vn, a face naming one vertex twice; integer coordinates
+// @clause for well-formed input the result has exactly the listed triangles, in file order, with one-based indices converted to zero-based (a face that names a vertex twice included), irrespective of comments, blank lines, indentation, index form and face/vertex order; exactly the listed vertices in file order; build() succeeds
+#[cfg(not(verif_skip_io_parse_obj_small_mesh_faithful))]
+#[kani::proof]
+#[kani::unwind(40)]
+fn io_parse_obj_small_mesh_faithful() {
+    let src = *b"# m\n\nf 1 2 3\nv 0 0 0\n  v 1 0 0\nv 0 2 0\nvt 0 0\nvn 0 0 1\nf 2/1 3/1 3/1\nf 3//1 1//1 2//1\nf 1/1/1 3/1/1 2/1/1\n";
+    let r = parse_obj(src);
+    kani::cover!(true);
+    assert!(r.is_ok());
+    if let Ok(b) = r {
+        let m = b.build();
+        assert!(m.faces.len() == 4 && m.verts.len() == 3);
+        assert!(face_is(&m, 0, [0, 1, 2]) && face_is(&m, 1, [1, 2, 2]) && face_is(&m, 2, [2, 0, 1]) && face_is(&m, 3, [0, 2, 1]));
+        assert!(vert_is(&m, 0, [0.0, 0.0, 0.0]) && vert_is(&m, 1, [1.0, 0.0, 0.0]) && vert_is(&m, 2, [0.0, 2.0, 0.0]));
+    }
+}
+
+// @ob props=C14 tier=quick kind=B cfg=geom-std timeout=2400
+// @fn parse_obj ; parse_face ; Mesh::new
+// @bound one concrete text: one vertex, a first face with the out-of-range index 5, a second face that is in range
+// @clause an out-of-range index in ANY face (not only the last) makes parse_obj return IndexOutOfBounds with that zero-based index instead of a builder whose build() would panic
+#[cfg(not(verif_skip_io_parse_obj_oob_in_earlier_face))]
+#[kani::proof]
+#[kani::unwind(40)]
+fn io_parse_obj_oob_in_earlier_face() {
+    let r = parse_obj(*b"v 0 0 0\nf 1 1 5\nf 1 1 1\n");
+    kani::cover!(true);
+    assert!(matches!(r, Err(Error::IndexOutOfBounds("vertex", 4))));
+}
+
+// @ob props=C14 tier=quick kind=B cfg=geom-std timeout=2400
+// @fn parse_obj ; parse_normal ; parse_vector
+// @bound one concrete text: one vertex, the zero normal "vn 0 0 0", one face using both
+// @clause a zero-length normal is data, not an error: parse_obj neither panics nor rejects it (normals are parsed but not returned)
+#[cfg(not(verif_skip_io_parse_obj_zero_normal))]
+#[kani::proof]
+#[kani::unwind(40)]
+fn io_parse_obj_zero_normal() {
+    let r = parse_obj(*b"v 0 0 0\nvn 0 0 0\nf 1//1 1//1 1//1\n");
+    kani::cover!(true);
+    assert!(r.is_ok());
+    if let Ok(b) = r {
+        assert!(b.mesh.faces.len() == 1 && b.mesh.verts.len() == 1);
+    }
+}
 
 include!("gen/dispatch_io.rs");
